@@ -533,7 +533,7 @@ func c17Main(r *engine.Run) {
 		lines = append(lines, lineItem{geom.NewLineString(geom.NewSequence(rot, geom.DimXY)), "float image"})
 		if i%33 == 0 {
 			// far from unit magnitude: lengths, fractions and thresholds must scale with the input
-			for _, sc := range []float64{1e-100, 1e100} {
+			for _, sc := range []float64{1e-100, 1e100, 0.07} { // 0.07: segment lengths and distances below 1 (squares smaller than the values)
 				var im []float64
 				for k := 0; k < s.Length(); k++ {
 					xy := s.GetXY(k)
